@@ -27,7 +27,7 @@ DIGEST_LIBS = ("hashlib", "xxhash", "zlib", "binascii", "hmac", "blake3", "crc32
 def read_loop_funcs(p):
     out = []
     for fq, f in p.funcs.items():
-        reads = [c for c, tg in p.calls[fq] if any(t == "extm:open().read" for t in tg)]
+        reads = [c for c, tg in p.calls[fq] if any(t in ("extm:open().read", "extm:open().readinto") for t in tg)]
         if reads and f.module.name.endswith("hasher"):
             out.append((f, reads))
     return out
@@ -68,6 +68,8 @@ def run(report, p):
         for rc in reads:
             st = _stmt(rc)
             size = rc.args[0] if rc.args else None
+            if isinstance(rc.func, ast.Attribute) and rc.func.attr == "readinto":
+                size = None
             if size is not None:
                 sv = p.fold(size, f)
                 r1.check(isinstance(sv, int) and not isinstance(sv, bool) and sv > 0, f, rc, f"read size `{norm(size)}` is not a positive constant (folded: {sv!r})", construct=f"read size {norm(size)}")
@@ -82,12 +84,37 @@ def run(report, p):
         if len(chunk_vars) != 1:
             raise AnalysisError(f"{f.qual}: more than one chunk variable {chunk_vars}")
         chunk = next(iter(chunk_vars))
+        # readinto(buffer): the variable is the byte COUNT; the data is buffer[:count]
+        buffers = {norm(rc.args[0]) for rc in reads if isinstance(rc.func, ast.Attribute) and rc.func.attr == "readinto" and rc.args}
+        if buffers and any(isinstance(rc.func, ast.Attribute) and rc.func.attr == "read" for rc in reads):
+            raise AnalysisError(f"{f.qual}: read() and readinto() mixed in one loop (unrecognised idiom)")
+        if len(buffers) > 1:
+            raise AnalysisError(f"{f.qual}: several readinto buffers")
+        buffer = next(iter(buffers)) if buffers else None
         for c, tg in p.calls[f.qual]:
-            if isinstance(c.func, ast.Attribute) and c.func.attr in ("seek", "truncate", "readinto", "readline", "readlines") and norm(c.func.value) == handle:
+            if isinstance(c.func, ast.Attribute) and c.func.attr in ("seek", "truncate", "readline", "readlines") and norm(c.func.value) == handle:
                 r1.check(False, f, c, f"the file position / content is manipulated with .{c.func.attr}(): not every byte is hashed exactly once")
         # update nodes: hasher.update(chunk) directly, or a for-loop whose body is exactly one update on each element of a collection
         upd_single, upd_loops = [], []
         for c, tg in p.calls[f.qual]:
+            if isinstance(c.func, ast.Attribute) and c.func.attr == "update" and len(c.args) == 1 and buffer is not None:
+                a = c.args[0]
+                mentions = any(isinstance(x, ast.Name) and x.id == buffer for x in ast.walk(a))
+                if not mentions:
+                    continue
+                base = a.value if isinstance(a, ast.Subscript) else None
+                if isinstance(base, ast.Call) and norm(base.func) == "memoryview" and base.args:
+                    base = base.args[0]
+                good = isinstance(a, ast.Subscript) and isinstance(a.slice, ast.Slice) and a.slice.lower is None and a.slice.step is None and a.slice.upper is not None and norm(a.slice.upper) == chunk and base is not None and norm(base) == buffer
+                if not good:
+                    r1.check(False, f, c, f"update() is fed `{norm(a)}`: with readinto() only the first `{chunk}` bytes of the reused buffer are file content, the rest is the stale tail of an earlier chunk (files whose size is not a multiple of the buffer get a wrong digest)", construct=f"update({norm(a)}) after readinto")
+                    continue
+                lp = parent(_stmt(c))
+                if isinstance(lp, ast.For) and len(lp.body) == 1 and _stmt(c) is lp.body[0] and not lp.orelse:
+                    upd_loops.append((c, lp))
+                else:
+                    upd_single.append(c)
+                continue
             if isinstance(c.func, ast.Attribute) and c.func.attr == "update" and len(c.args) == 1:
                 if not (isinstance(c.args[0], ast.Name) and c.args[0].id == chunk):
                     if any(isinstance(x, ast.Name) and x.id == chunk for x in ast.walk(c.args[0])):
